@@ -388,6 +388,62 @@ fn oracle_c19(
     let rows = c19_rows();
     for (i, (q, r)) in reqs.iter().zip(reps.iter()).enumerate() {
         let t: Vec<&str> = q.split(' ').collect();
+        if t[0] == "fmtq" {
+            *checked += 1;
+            if r == "panic" {
+                fail(fails, i, q, r, "printing panicked".into());
+                continue;
+            }
+            let text = str_of_hex(r).unwrap_or_default();
+            nontrivial.insert(text.clone());
+            use crate::reader::*;
+            let parse_cond = |toks: &[&str]| -> Option<E> {
+                if toks.first() == Some(&"-") { None } else { E::parse(toks).map(|x| x.0) }
+            };
+            let ok = match t[1] {
+                "select" => {
+                    let (want, _) = crate::refdb::Sel::parse(&t[2..]).unwrap();
+                    match read_select(&text) {
+                        Some(got) => same_select(&want, &got),
+                        None => false,
+                    }
+                }
+                "insert" => {
+                    let tn = str_of_hex(t[2]).unwrap();
+                    let k: usize = t[3].parse().unwrap();
+                    let mut pos = 4;
+                    let mut rows = vec![];
+                    for _ in 0..k {
+                        let n: usize = t[pos].parse().unwrap();
+                        rows.push(t[pos + 1..pos + 1 + n].iter().map(|v| V::parse(v).unwrap()).collect::<Vec<_>>());
+                        pos += 1 + n;
+                    }
+                    read_insert(&text) == Some((tn, rows))
+                }
+                "update" => {
+                    let tn = str_of_hex(t[2]).unwrap();
+                    let k: usize = t[3].parse().unwrap();
+                    let ups: Vec<(String, V)> = (0..k).map(|j| (str_of_hex(t[4 + 2 * j]).unwrap(), V::parse(t[5 + 2 * j]).unwrap())).collect();
+                    let cond = parse_cond(&t[4 + 2 * k..]);
+                    match read_update(&text) {
+                        Some((a, b, c)) => a == tn && b == ups && same_cond(&c, &cond),
+                        None => false,
+                    }
+                }
+                _ => {
+                    let tn = str_of_hex(t[2]).unwrap();
+                    let cond = parse_cond(&t[3..]);
+                    match read_delete(&text) {
+                        Some((a, c)) => a == tn && same_cond(&c, &cond),
+                        None => false,
+                    }
+                }
+            };
+            if !ok {
+                fail(fails, i, q, r, format!("printed query {text:?} does not read back (with the grammar's rules) as the same tables, columns, literals, assignments, conditions and join structure"));
+            }
+            continue;
+        }
         if t[0] != "fmt" {
             continue;
         }
